@@ -687,6 +687,7 @@ def run_s11_s12(chk, repo):
     run_s15(chk, repo)
     run_s16(chk, repo)
     run_s17(chk, repo)
+    run_s18(chk, repo)
 
 
 def run_s13(chk, repo):
@@ -854,3 +855,37 @@ def run_s17(chk, repo):
                                       'writes a control stream without the THETA(CL) abbreviation')
     if n == 0:
         raise AnalysisError('S17: no record replacement found in update_abbr_record')
+
+
+def run_s18(chk, repo):
+    """S18: the methods of NMTranControlStream that pick records by their kind (`rec.name == name` in a loop over the records)
+    agree on what "the records of kind X" are: those of the first $PROBLEM (get_records counts the PROBLEM records). A sibling
+    that selects by kind without looking at the PROBLEM records acts on every problem of the control stream"""
+    S18 = chk.rule('S18', 'NMTranControlStream: every method that selects records by kind in a loop over all records also looks at '
+                          'the $PROBLEM boundaries (as get_records does)', floor=2)
+    pm = repo.module(f'{NM}.nmtran_parser')
+    cls = pm.classes.get('NMTranControlStream')
+    if cls is None or 'get_records' not in cls.methods:
+        raise AnalysisError('S18: NMTranControlStream.get_records not found')
+    n = 0
+    for f in cls.methods.values():
+        params = set(f.all_params) - {'self'}
+        loops = [L for L in ast.walk(f.node) if isinstance(L, ast.For) and 'records' in unparse(L.iter)]
+        sel = [c for L in loops for c in ast.walk(L) if isinstance(c, ast.Compare) and len(c.ops) == 1
+               and isinstance(c.ops[0], (ast.Eq, ast.NotEq)) and isinstance(c.left, ast.Attribute) and c.left.attr == 'name'
+               and isinstance(c.comparators[0], ast.Name) and c.comparators[0].id in params]
+        if not sel:
+            continue
+        n += 1
+        scoped = any(isinstance(c, ast.Compare) and isinstance(c.left, ast.Attribute) and c.left.attr == 'name'
+                     and isinstance(c.comparators[0], ast.Constant) and c.comparators[0].value == 'PROBLEM'
+                     for L in loops for c in ast.walk(L))
+        chk.instance(S18, f'{f.qualname}: selects by `{unparse(sel[0])}`; looks at the PROBLEM records: {scoped}')
+        if not scoped:
+            chk.violation(S18, pm.rel, f.qualname, unparse(sel[0]),
+                          'records of that kind are selected in every $PROBLEM of the control stream, while the records handed in '
+                          'come from get_records(), i.e. from the first problem only', line=sel[0].lineno,
+                          witness='two $PROBLEMs, each with $THETA / $OMEGA / $SIGMA: update_source() of the unmodified model '
+                                  'deletes those records of the second problem')
+    if n < 2:
+        raise AnalysisError(f'S18: only {n} record-selecting methods found in NMTranControlStream')
